@@ -20,6 +20,7 @@ type Adversary struct {
 	outsiders [][]byte
 	nextBlock uint64
 	BadBlocks map[uint64]bool // blocks every correct consumer rejects
+	own       []*interfaces.ConsensusRawMessage
 }
 
 func NewAdversary(net *Net) *Adversary {
@@ -122,6 +123,9 @@ func (a *Adversary) seen() []seenMsg {
 	for _, s := range a.net.seen {
 		r = append(r, seenMsg{interfaces.ToConsensusMessage(s.Raw), s.Raw, s.From})
 	}
+	for _, raw := range a.own { // what the adversary itself put on the wire
+		r = append(r, seenMsg{interfaces.ToConsensusMessage(raw), raw, nil})
+	}
 	return r
 }
 
@@ -186,6 +190,9 @@ func (a *Adversary) isByz(id []byte) bool { return a.net.byz[string(id)] }
 
 func (a *Adversary) inject(to *RealNode, raw *interfaces.ConsensusRawMessage, op string) {
 	a.net.c.Class("adv/" + op)
+	if len(a.own) == 0 || a.own[len(a.own)-1] != raw {
+		a.own = append(a.own, raw)
+	}
 	a.net.lastAdvOp = op
 	a.net.deliverFlight(&Flight{To: to.Id, From: nil, Raw: raw, Byz: true})
 	a.net.lastAdvOp = ""
@@ -254,7 +261,7 @@ func (a *Adversary) act() {
 		return
 	}
 	byz := a.byzIds[r.Intn(len(a.byzIds))]
-	switch r.Intn(16) {
+	switch r.Intn(20) {
 	case 0: // replay old traffic
 		if len(net.seen) > 0 {
 			s := net.seen[r.Intn(len(net.seen))]
@@ -447,6 +454,98 @@ func (a *Adversary) act() {
 				a.toAll(a.mkC(byz, protocol.LEAN_HELIX_PREPARE, inst, h, v, hash), "type-mismatch-commit")
 				break
 			}
+		}
+	case 15: // NEW_VIEW: a genuine quorum of votes first, then one extra Byzantine vote with a fabricated high-view proof for a block of the leader's choice
+		for nv := v; nv <= v+1; nv++ {
+			if nv > 0 && a.isByz(a.leaderOf(nv)) {
+				ld := a.leaderOf(nv)
+				votes := a.genuineVotes(h, nv, false, nil)
+				bad := a.newBlock(h, true)
+				pv := nv - 1
+				ppref := a.refB(protocol.LEAN_HELIX_PREPREPARE, inst, h, pv, blockHash(bad))
+				pref := a.refB(protocol.LEAN_HELIX_PREPARE, inst, h, pv, blockHash(bad))
+				var ps []*protocol.SenderSignatureBuilder
+				for _, m := range net.members {
+					if string(m.Id) != string(a.leaderOf(pv)) {
+						sb := a.senderB(ld, h, pref.Build().Raw()) // signed with the Byzantine key, whoever it claims to be
+						sb.MemberId = m.Id
+						ps = append(ps, sb)
+					}
+				}
+				lsig := a.senderB(ld, h, ppref.Build().Raw())
+				lsig.MemberId = a.leaderOf(pv)
+				forged := &protocol.PreparedProofBuilder{PreprepareBlockRef: ppref, PreprepareSender: lsig, PrepareBlockRef: pref, PrepareSenders: ps}
+				votes = append(votes, a.vcContent(ld, protocol.LEAN_HELIX_VIEW_CHANGE, inst, h, nv, forged)) // the forged one last
+				pp := a.ppContent(ld, protocol.LEAN_HELIX_PREPREPARE, inst, h, nv, blockHash(bad))
+				a.toAll(a.mkNV(ld, protocol.LEAN_HELIX_NEW_VIEW, inst, h, nv, votes, pp, bad), "nv-quorum-plus-forged-lock")
+			}
+		}
+	case 16: // a prepared proof whose PREPREPARE ref (self-signed by a Byzantine leader of a later view) is glued onto genuine PREPARE signatures of an earlier view
+		for nv := v; nv <= v+2; nv++ {
+			ld := a.leaderOf(nv)
+			if nv == 0 {
+				continue
+			}
+			for p2 := uint64(1); p2 < nv; p2++ {
+				if !a.isByz(a.leaderOf(p2)) {
+					continue
+				}
+				for p1 := uint64(0); p1 < p2; p1++ {
+					proof, blk := a.genuineProof(h, p1)
+					if proof == nil || blk == nil {
+						continue
+					}
+					bl := a.leaderOf(p2)
+					ppref := a.refB(protocol.LEAN_HELIX_PREPREPARE, inst, h, p2, blockHash(blk)) // claims the later view
+					proof.PreprepareBlockRef = ppref
+					proof.PreprepareSender = a.senderB(bl, h, ppref.Build().Raw())
+					// drop the Byzantine leader's own PREPARE, if present (the leader may not be a prepare sender)
+					var ps []*protocol.SenderSignatureBuilder
+					for _, s := range proof.PrepareSenders {
+						if string(s.MemberId) != string(bl) {
+							ps = append(ps, s)
+						}
+					}
+					proof.PrepareSenders = ps
+					c := a.vcContent(byz, protocol.LEAN_HELIX_VIEW_CHANGE, inst, h, nv, proof)
+					if n, ok := net.nodes[string(ld)]; ok {
+						a.inject(n, a.mkVC(c, blk), "vc-proof-view-mismatch")
+						return
+					}
+				}
+			}
+		}
+	case 17: // a COMMIT naming a correct member, with a forged signature and that member's genuine share replayed from another of its COMMITs
+		for _, s := range a.seen() {
+			m, ok := s.m.(*interfaces.PreprepareMessage)
+			if !ok || uint64(m.BlockHeight()) != h || uint64(m.View()) != v {
+				continue
+			}
+			hash := m.Content().SignedHeader().BlockHash()
+			for _, mem := range net.members {
+				if a.isByz(mem.Id) || string(mem.Id) == string(target.Id) {
+					continue
+				}
+				share := []byte(nil)
+				for _, s2 := range a.seen() {
+					if cm, ok := s2.m.(*interfaces.CommitMessage); ok && uint64(cm.BlockHeight()) == h && string(cm.SenderMemberId()) == string(mem.Id) {
+						share = cm.Content().Share()
+					}
+				}
+				if share == nil {
+					continue
+				}
+				ref := a.refB(protocol.LEAN_HELIX_COMMIT, inst, h, v, hash)
+				c := &protocol.CommitContentBuilder{SignedHeader: ref, Sender: &protocol.SenderSignatureBuilder{MemberId: mem.Id, Signature: []byte("forged-signature")}, Share: share}
+				a.inject(target, interfaces.NewCommitMessage(c.Build()).ToConsensusRawMessage(), "commit-forged-signature")
+			}
+			break
+		}
+	case 18: // Byzantine COMMITs and PREPAREs for ANOTHER hash in the view being decided
+		other := a.newBlock(h, false)
+		a.toAll(a.mkC(byz, protocol.LEAN_HELIX_COMMIT, inst, h, v, blockHash(other)), "byz-commit-other-hash")
+		if string(byz) != string(a.leaderOf(v)) {
+			a.toAll(a.mkP(byz, protocol.LEAN_HELIX_PREPARE, inst, h, v, blockHash(other)), "byz-prepare-other-hash")
 		}
 	default: // mutate one aspect of a message seen on the wire and deliver it
 		a.mutate(target)
